@@ -525,6 +525,19 @@ def lf_refused_rule_block(rng, tier):
     return cases
 
 
+def lf_hidden_partition_corpus():
+    """witnesses of the known finding lf:roundtrip:hidden-partition (get_param_rules omits rate_partition of
+    distribution='free'): the ONLY cases where the round trip is evaluated without handing the hidden partition over"""
+    tree, edges = TREES[0]
+    out = []
+    for nb, op in ((2, dict(op="calc", steps=[["vec", [0.1, 0.05, 0.02]], ["one", 0, 0.2], ["revert"], ["one", 1, 0.15]])),
+                   (3, dict(op="optimise", evals=4)),
+                   (2, dict(op="optimise", evals=6))):
+        spec = dict(tree=tree, model="HKY85", length=60, aln_seed=nb, bins=nb, dist="free")
+        out.append(dict(kind="lf", block="corpus-hidden-partition", spec=spec, edges=edges, plain_hidden=True, ops=[op, dict(op="roundtrip")]))
+    return out
+
+
 def lf_hidden_partition_block(rng, tier):
     """(B) models with optimisable partitions that are not user parameters (ordered_param='rate', distribution='free'):
     optimiser sessions / optimise(max_evaluations=small) / update_from_calculator, then settings"""
@@ -816,8 +829,13 @@ def check_lf(rep, c, ir, stats):
                 break
         rbad = None
         both_inf = rt["lnL"] == lnl      # covers -inf == -inf
-        if rt["worst"] > TOL and rt["which"] and str(rt["which"][0]).split("#")[0].endswith("_partition"):
-            rbad = "hidden-partition"            # an optimisable partition that is not a user parameter is not exported
+        comp = rt.get("compensated")
+        if (comp is not None and rt["worst"] > TOL and rt["which"] and str(rt["which"][0]).split("#")[0].endswith("_partition")
+                and rt["nfp"] == nfp and comp["nfp"] == nfp and comp["worst"] <= TOL
+                and (comp["lnL"] == lnl or abs(comp["lnL"] - lnl) <= TOL * max(1.0, abs(lnl)))):
+            # ONLY this: the rules omit an optimisable partition that is not a user parameter, and supplying that
+            # partition makes the rebuilt function identical (lnL, nfp, every value).  Anything else is a real alarm.
+            rbad = "hidden-partition"
         elif rt["worst"] > TOL and rt["which"] and str(rt["which"][0]).split("#")[0] in ("mprobs", "bprobs"):
             rbad = "probability-vector"          # the export altered a probability vector (adjusted_gt_minprob)
         elif not both_inf and abs(rt["lnL"] - lnl) > TOL * max(1.0, abs(lnl)):
@@ -1058,6 +1076,7 @@ def run(tier: str, seed: int) -> int:
     # the raising-block region: one witness per layer (reported once; KNOWN-FINDING when listed)
     cases += [ctl_case(random.Random(101), "raising", raising=True), ctl_case(random.Random(102), "raising", raising=True)]
     cases += [lf_case(random.Random(103), "raising", raising=True)]
+    cases += lf_hidden_partition_corpus()
     cases += exhaustive_block(tier)
     cases += [calc_case(rng, "random") for _ in range(n_calc)]
     cases += [calc_case(rng, "random-small", small=True, nsteps=rng.randint(4, 12)) for _ in range(n_calc // 2)]
